@@ -48,6 +48,146 @@ def outside_attrs(ctx, model):
     return out
 
 
+def copier_table(ctx, model, ci, fn, m, fields, params):
+    """A custom __copy__ / __deepcopy__ interpreted on a stand-in instance that carries every attribute instances can carry, each holding a
+    recognisable mutable value: the result must carry them all (equal values) and, for __deepcopy__, share no mutable object with the original."""
+    from ..interp import Interp, Obj, Raised, Env, _clone
+
+    def sample(f):
+        if f == 'parts':
+            return ['a', Obj('Star', parentheses=False, alias=None)]
+        if f in ('parentheses',):
+            return True
+        return Obj('Value', tag=f, inner=[Obj('Leaf', tag=f)])
+    me = Obj(ci.name, **{f: sample(f) for f in sorted(fields)})
+    init_order = [p for p, _ in model.init_params(ci)]
+
+    def ctor(it, *a, **k):
+        d = {}
+        for p, dflt in params.items():
+            d[p] = dflt.value if isinstance(dflt, ast.Constant) else None
+        for p, v in zip(init_order, a):
+            d[p] = v
+        d.update(k)
+        d.pop('args', None), d.pop('kwargs', None)
+        return Obj(ci.name, **d)
+
+    def shallow(it, x, *a):
+        if isinstance(x, list):
+            return list(x)
+        if isinstance(x, Obj):
+            if x.kind == ci.name and '__copy__' in ci.methods and fn is not ci.methods['__copy__']:
+                return it.call_function(ci.methods['__copy__'], [x], {}, Env())
+            return Obj(x.kind, **dict(x.attrs))
+        return x
+    stubs = {ci.name: ctor, 'copy': shallow, 'copy.copy': shallow, 'deepcopy': lambda it, x, *a: _clone(x, {}), 'copy.deepcopy': lambda it, x, *a: _clone(x, {})}
+    methods = {ci.name: {k: v for c in model.mro(ci) for k, v in reversed(list(c.methods.items()))}}
+    it = Interp({ci.name: {c.name for c in model.mro(ci)}}, stubs, methods=methods)
+    args = [me] + ([{}] if m == '__deepcopy__' else [])
+    try:
+        res = it.call_function(fn, args, {}, Env())
+    except Raised as r:
+        ctx.ob('C18.custom-copy-complete', f'{ci.name}.{m}', False, f'{ci.name}.{m} raises {r.exc_name} on an instance that carries {sorted(fields)}',
+               file=ci.file, line=fn.lineno)
+        return True
+    ok_obj = isinstance(res, Obj) and res.kind == ci.name and res is not me
+    ctx.ob('C18.custom-copy-complete', f'{ci.name}.{m}', ok_obj, f'{ci.name}.{m} does not return a new {ci.name}', file=ci.file, line=fn.lineno)
+    if not ok_obj:
+        return True
+    for fld in sorted(fields):
+        have = fld in res.attrs and res.attrs[fld] == me.attrs[fld]
+        ctx.ob('C18.custom-copy-complete', f'{ci.name}.{m}:{fld}', have,
+               f'{ci.name}.{m} does not transfer the attribute `{fld}` that instances can carry: the copy has '
+               f'{res.attrs.get(fld, "<nothing>")!r} instead of {me.attrs[fld]!r}', file=ci.file, line=fn.lineno)
+    if m == '__deepcopy__':
+        def mutable_ids(v, acc):
+            if isinstance(v, Obj):
+                acc[id(v)] = v
+                for x in v.attrs.values():
+                    mutable_ids(x, acc)
+            elif isinstance(v, (list, dict)):
+                acc[id(v)] = v
+                for x in (v.values() if isinstance(v, dict) else v):
+                    mutable_ids(x, acc)
+            return acc
+        for fld in sorted(fields):
+            mine = mutable_ids(me.attrs[fld], {})
+            theirs = mutable_ids(res.attrs.get(fld), {})
+            shared = set(mine) & set(theirs)
+            ctx.ob('C18.custom-copy-deep', f'{ci.name}.{m}:{fld}', not shared,
+                   f'{ci.name}.__deepcopy__ shares mutable objects of `{fld}` between the copy and the original ({[repr(mine[i])[:40] for i in list(shared)[:2]]}): '
+                   f'changing the copy changes what the original prints', file=ci.file, line=fn.lineno,
+                   witness='parse_sql("select t.* from t").copy().targets[0].parts[-1].parentheses = True')
+    ctx.count('copier_tables')
+    return True
+
+
+def eq_table(ctx, model, ci, fn, cons):
+    """__eq__ interpreted on stand-ins built from the class's own fields: identical, one field different, a late attribute on one side only,
+    another class, a non-object.  Lawful = boolean, no exception, eq(a, b) is eq(b, a), identical objects equal."""
+    from ..interp import Interp, Obj, Raised, Env
+    if any(isinstance(n, ast.Call) and dotted(n.func) in ('super', 'super().__eq__') for n in ast.walk(fn)):
+        raise AnalysisError('uses super()')
+    init_fields, late = [], []
+    for sub in [ci]:
+        c0, init = model.method(sub, '__init__')
+        inits = set()
+        if init is not None:
+            for x in walk_no_nested(init):
+                if isinstance(x, ast.Attribute) and isinstance(x.value, ast.Name) and x.value.id == 'self' and isinstance(x.ctx, ast.Store):
+                    inits.add(x.attr)
+        for attr in model.self_fields(sub):
+            (init_fields if attr in inits else late).append(attr)
+    if not init_fields:
+        raise AnalysisError('no fields')
+    LISTY = {'steps', 'args', 'parts', 'items', 'columns', 'values', 'targets'}
+
+    def sample(f, alt=False):
+        if f in LISTY:
+            return [Obj('Item', x=1), Obj('Item', x=3 if alt else 2)]
+        return f'w_{f}' if alt else f'v_{f}'
+
+    def mk(kind=ci.name, change=None, extra=None, shorter=False):
+        d = {f: sample(f, alt=(f == change)) for f in init_fields}
+        if shorter:
+            for f in init_fields:
+                if f in LISTY:
+                    d[f] = d[f][:1]
+        d.update(extra or {})
+        return Obj(kind, **d)
+    cases = [('identical', mk(), mk(), True)]
+    for f in init_fields:
+        cases.append((f'{f} differs', mk(), mk(change=f), None))       # may or may not matter to equality; must be symmetric
+        if f not in LISTY:
+            cases.append((f'{f} is None on one side', mk(), mk(extra={f: None}), None))
+    if any(f in LISTY for f in init_fields):
+        cases.append(('shorter list', mk(), mk(shorter=True), None))
+    for l in late:
+        cases.append((f'late attribute {l} on one side', mk(extra={l: 'late'}), mk(), None))
+        cases.append((f'late attribute {l} on both sides, different', mk(extra={l: 'late'}), mk(extra={l: 'other'}), None))
+    cases.append(('another class', mk(), mk(kind='SomethingElse'), False))
+    cases.append(('not an object', mk(), 'text', None))
+    methods = {ci.name: {k: v for c in model.mro(ci) for k, v in reversed(list(c.methods.items()))}, 'SomethingElse': {}}
+    isa = {ci.name: {c.name for c in model.mro(ci)}}
+
+    def run(a, b):
+        it = Interp(isa, {}, methods=methods)
+        try:
+            return it.call_function(fn, [a, b], {}, Env())
+        except Raised as r:
+            return f'<raises {r.exc_name}>'
+    for label, a, b, want in cases:
+        r1 = run(a, b)
+        r2 = run(b, a) if isinstance(b, Obj) and b.kind == ci.name else r1
+        lawful = isinstance(r1, bool) and isinstance(r2, bool) and r1 is r2 and (want is None or r1 is want)
+        ctx.ob('C18.eq-symmetric', f'{cons}:{label}', lawful,
+               f'{cons} [{label}]: a == b gives {r1!r}, b == a gives {r2!r}' + (f', expected {want}' if want is not None else '') +
+               ': equality must be a boolean, never raise, be the same in both directions and hold for identical objects',
+               file=ci.file, line=fn.lineno)
+    ctx.count('eq_tables')
+    return True
+
+
 def run(ctx):
     ctx.explanation = (
         'Protocol lints, exhaustive over all classes of mindsdb_sql: (1) ASTNode.copy is copy.deepcopy(self) and no AST class '
@@ -101,6 +241,11 @@ def run(ctx):
                 continue
             fn = ci.methods[m]
             ctx.count('custom_copy_methods')
+            try:
+                if copier_table(ctx, model, ci, fn, m, fields, params):
+                    continue
+            except AnalysisError as e:
+                ctx.note(f'{ci.name}.{m}: not interpretable ({str(e)[:80]}): decided by the syntactic transfer analysis')
             # the new object: a local assigned from a constructor call of the same class
             def transfers(fn, depth=0):
                 newvar = None
@@ -183,6 +328,14 @@ def run(ctx):
             boolish = v is not None and not (isinstance(v, ast.Constant) and not isinstance(v.value, bool))
             ctx.ob('C18.eq-total', f'{cons}:return@{norm(r)}'[:90], boolish,
                    f'{cons} returns `{norm(v) if v is not None else None}` which is not a boolean', file=ci.file, line=r.lineno)
+        table_done = False
+        if ci.name != 'ASTNode':
+            try:
+                table_done = eq_table(ctx, model, ci, fn, cons)
+            except AnalysisError as e:
+                ctx.note(f'{cons}: not interpretable ({str(e)[:80]}): decided by the syntactic swap-closure rule')
+        if table_done:
+            continue
         # symmetric conditions: the set of atoms of every condition is closed under swapping self <-> other
         import re
         swap = lambda s: re.sub(r'\bself\b|\b%s\b' % re.escape(other), lambda m: other if m.group(0) == 'self' else 'self', s)
@@ -255,34 +408,32 @@ def run(ctx):
     # (6) equal => same print
     fn = base.methods.get('__eq__')
     ctx.need(fn is not None, 'ASTNode.__eq__ not found')
-    other = fn.args.args[1].arg
-    has_tree = has_str = False
-    for n in walk_no_nested(fn):
-        if isinstance(n, ast.Compare) and isinstance(n.ops[0], ast.Eq):
-            l, r = norm(n.left), norm(n.comparators[0])
-            if {l, r} == {'self.to_tree()', f'{other}.to_tree()'}:
-                has_tree = True
-            if ('str(self)' in l + r or 'self.to_string()' in l + r) and (f'str({other})' in l + r or f'{other}.to_string()' in l + r):
-                has_str = True
-    # both must be conjoined on the accepting path: every `return` that can be True mentions both, or is `self is other`
-    okp = has_tree and has_str
-    for r in [n for n in walk_no_nested(fn) if isinstance(n, ast.Return)]:
-        v = r.value
-        if isinstance(v, ast.Constant) and v.value is False:
-            continue
-        if isinstance(v, ast.Constant) and v.value is True:
-            par = getattr(r, '_parent', None)
-            if isinstance(par, ast.If) and norm(par.test) in (f'self is {other}', f'{other} is self'):
-                continue
+    # truth table: ASTNode.__eq__ interpreted on stand-ins whose tree text / printed text are equal or not
+    from ..interp import Interp, Obj, Raised, Env
+    import itertools as _it
+    okp = True
+    rows = []
+    for is_ast, same_tree, same_print in _it.product((True, False), (True, False), (True, False)):
+        def mk(tree, text):
+            return Obj('Select', to_tree=lambda *a, **k: tree, to_string=lambda *a, **k: text, get_string=lambda *a, **k: text, _str=text, alias=None,
+                       parentheses=False)
+        me = mk('T1', 'S1')
+        you = mk('T1' if same_tree else 'T2', 'S1' if same_print else 'S2') if is_ast else 'not a node'
+        stubs = {'str': lambda it, x=None: x.attrs['_str'] if isinstance(x, Obj) else str(x), 'to_single_line': lambda it, x: x, 'repr': lambda it, x: repr(x)}
+        it = Interp({'Select': {'ASTNode'}}, stubs, methods={'Select': {k: v for k, v in base.methods.items() if k not in ('to_tree', 'to_string', 'get_string')}})
+        try:
+            got = it.call_function(fn, [me, you], {}, Env())
+        except Raised as r:
+            got = f'<{r.exc_name}>'
+        want = is_ast and same_tree and same_print
+        rows.append((is_ast, same_tree, same_print, got))
+        if got is not want and not (got in (False, None) and want is False):
             okp = False
-            continue
-        txt = norm(v)
-        if not ('to_tree()' in txt and ('str(self)' in txt or 'to_string()' in txt) and isinstance(v, ast.BoolOp)
-                and isinstance(v.op, ast.And)):
-            okp = False
+    ctx.extra['ast_eq_truth_table'] = [list(map(str, r)) for r in rows]
     ctx.ob('C18.eq-implies-same-print', 'ASTNode.__eq__', okp,
-           'ASTNode.__eq__ does not conjoin to_tree() equality with printed-text equality: two trees can compare equal and '
-           'print different SQL (to_tree omits e.g. `parentheses`)', file=base.file, line=fn.lineno,
+           f'ASTNode.__eq__ (rows: is-a-node, same to_tree, same printed text -> result: {rows}) must be True exactly when the other object is a node with the same '
+           f'tree text AND the same printed SQL: two trees can otherwise compare equal and print different SQL (to_tree omits e.g. `parentheses`)',
+           file=base.file, line=fn.lineno,
            witness='parse_sql("select * from t where (a = 1)") == parse_sql("select * from t where a = 1")')
     # (7) hash
     for ci in all_classes:
